@@ -221,6 +221,60 @@ class C07(Prop):
             u = rnd.choice(pool + ['Hz'])
             a = rnd.randrange(0, top)
             cases.append(Case('upos %s %s %s %s %s' % (head, du, enc(upick(tab, du, coord(a), u)), u, rnd.choice(RULES)), 'upos'))
+        # ---- the remaining public routes (deprecated overloads that throw instead of answering none; vector overloads)
+        for _ in range(25 if quick else 250 * scale):
+            dt = rnd.choice(INTERVALS[:8]); off = rnd.choice([None, 0.3, -0.3, 5.0]); o = off or 0.0
+            hd = '%s %s' % (enc(dt), enc(off) if off is not None else '-')
+            def spos():
+                i = rnd.randrange(0, 3000)
+                return rnd.choice([i * dt + o, ulp_next(i * dt + o, rnd.choice([-1, 1])), (i + 0.5) * dt + o, o - dt, o - 1e6])
+            cases.append(Case('s1 %s %s' % (hd, enc(spos())), 's1'))
+            a, b = spos(), spos()
+            cases.append(Case('s2 %s %s %s' % (hd, enc(a), enc(b)), 's2'))
+            cases.append(Case('s2 %s %s %s' % (hd, enc(min(a, b)), enc(max(a, b))), 's2'))
+            m = rnd.choice([0, 1, 2, 4])
+            prs = []
+            for _i in range(m):
+                a, b = spos(), spos()
+                if rnd.random() < 0.8:
+                    a, b = min(a, b), max(a, b)
+                prs += [enc(a), enc(b)]
+            sur = [enc(1.0)] if rnd.random() < 0.1 else []
+            cases.append(Case('svec2 %s %d %s' % (hd, m, ' '.join(prs + sur)), 'svec2'))
+            # set / data-frame vectors
+            for kind in ('setvec', 'dfvec'):
+                k = rnd.choice([0, 1, 3, 5])
+                m = rnd.choice([0, 1, 3])
+                prs = []
+                for _i in range(m):
+                    a = rnd.choice([0.0, 1.0, 2.5, -1.0, 4.0, 4.5, 7.0]); b = rnd.choice([0.0, 1.0, 2.5, 3.0, 4.0, 4.5, 9.0])
+                    prs += [enc(a), enc(b)]
+                sur = [enc(1.0)] if rnd.random() < 0.1 else []
+                cases.append(Case('%s %d %s %d %s' % (kind, k, rnd.choice(['incl', 'excl']), m, ' '.join(prs + sur)), kind))
+            # range routes
+            k = rnd.choice([1, 2, 3, 5, 8])
+            t = sorted(set(rnd.choice([float(rnd.randrange(-5, 30)), rnd.uniform(-5, 30)]) for _ in range(k)))
+            k = len(t)
+            tk = '%d %s' % (k, ' '.join(enc(x) for x in t))
+            def rpos():
+                x = rnd.choice(t)
+                return rnd.choice([x, ulp_next(x, 1), ulp_next(x, -1), x + 0.5, t[0] - 1.0, t[-1] + 1.0])
+            cases.append(Case('r1 %s %s %d' % (tk, enc(rpos()), rnd.choice([0, 1])), 'r1'))
+            a, b = rpos(), rpos()
+            cases.append(Case('r2 %s %s %s' % (tk, enc(a), enc(b)), 'r2'))
+            cases.append(Case('r2 %s %s %s' % (tk, enc(max(a, b)), enc(min(a, b))), 'r2-reversed'))
+            cases.append(Case('pinr %s %s' % (tk, enc(rpos())), 'pinr'))
+            m = rnd.choice([0, 1, 2, 4])
+            prs = []
+            for _i in range(m):
+                a, b = rpos(), rpos()
+                if rnd.random() < 0.7:
+                    a, b = min(a, b), max(a, b)
+                prs += [enc(a), enc(b)]
+            sur = [enc(1.0)] if rnd.random() < 0.1 else []
+            cases.append(Case('rvec %s %s %d %s' % (tk, rnd.choice(['incl', 'excl']), m, ' '.join(prs + sur)), 'rvec'))
+            cases.append(Case('rvecb %s %d %s %d %s' % (tk, rnd.choice([0, 1]), rnd.choice(['incl', 'excl']), m, ' '.join(prs + sur)), 'rvecb'))
+        cases.append(Case('pinr 0 %s' % enc(1.0), 'pinr'))
         # ---- the axis the indices must be consistent with: axis(count, start)[i] = x_(start+i), tickAt(i) = tick i
         for _ in range(20 if quick else 200 * scale):
             dt = rnd.choice(INTERVALS); off = rnd.choice([None, 0.3, -0.3, 5.0])
